@@ -130,19 +130,22 @@ C19_Step(pre, r, resp, post) ==
   /\ \A k \in (DOMAIN post.classes) \ (DOMAIN pre.classes) :
         r.op # "rc_put" \/ r.v >= 7 => \A j \in DOMAIN pre.classes : pre.classes[j] # post.classes[k]
 
-\* names of the monitors that fail on a step (reported by the trace checker)
-StepMonitors(pre, r, resp, post) ==
+\* names of the monitors that fail on a step (reported by the trace checker).
+\* A state invariant is blamed on the step that breaks it (or on the first
+\* step of a history), not on every later step of the same history.
+Breaks(Inv(_), pre, post, first) == ~Inv(post) /\ (first \/ Inv(pre))
+StepMonitors(pre, r, resp, post, first) ==
      (IF C01_Step(pre, r, resp, post) THEN {} ELSE {"C01_Step"})
 \cup (IF C04_Step(pre, r, resp, post) THEN {} ELSE {"C04_Step"})
-\cup (IF C08_Inv(post) THEN {} ELSE {"C08_Inv"})
+\cup (IF Breaks(C08_Inv, pre, post, first) THEN {"C08_Inv"} ELSE {})
 \cup (IF C08_DeleteRules(pre, r, resp, post) THEN {} ELSE {"C08_DeleteRules"})
-\cup (IF C09_Inv(post) THEN {} ELSE {"C09_Inv"})
+\cup (IF Breaks(C09_Inv, pre, post, first) THEN {"C09_Inv"} ELSE {})
 \cup (IF C09_Rejects(pre, r, resp, post) THEN {} ELSE {"C09_Rejects"})
 \cup (IF C10_Step(pre, r, resp, post) THEN {} ELSE {"C10_Step"})
-\cup (IF C12_Inv(post) THEN {} ELSE {"C12_Inv"})
+\cup (IF Breaks(C12_Inv, pre, post, first) THEN {"C12_Inv"} ELSE {})
 \cup (IF C12_Step(pre, r, resp, post) THEN {} ELSE {"C12_Step"})
-\cup (IF C19_Inv(post) THEN {} ELSE {"C19_Inv"})
+\cup (IF Breaks(C19_Inv, pre, post, first) THEN {"C19_Inv"} ELSE {})
 \cup (IF C19_Step(pre, r, resp, post) THEN {} ELSE {"C19_Step"})
-\cup (IF TypeOK(post) THEN {} ELSE {"TypeOK"})
+\cup (IF Breaks(TypeOK, pre, post, first) THEN {"TypeOK"} ELSE {})
 
 =============================================================================
